@@ -209,6 +209,8 @@ func suitePathGuard(c *Ctx) error {
 		add("/", filepath.Join(root, l), "symlink at the leaf")
 		add("/", filepath.Join(root, l, missing), "symlinked parent of a missing leaf")
 		add("/", filepath.Join(root, l, missing, "x"), "symlinked ancestor, two missing")
+		add("/", filepath.Join(root, l, missing, "a/b/c/d/e/f/g/h/i/j/k/l/m/n/o/p/q/db"), "symlinked ancestor, eighteen missing components")
+		add(root, l+"/"+missing+"/a/b/c/d/e/f/g/h/i/j/k/l/m/db", "relative, symlinked ancestor, fourteen missing components")
 		add(root, l+"/"+missing, "relative, symlinked parent of a missing leaf")
 		add(root, "./plain/../"+l+"/"+missing, "relative with .. and symlinked parent")
 		add("/", filepath.Join(root, l)+"/../"+missing, "symlink then .. (physical parent differs from lexical)")
